@@ -154,6 +154,46 @@ def random_spec(rng, site, L, bc):
     return spec
 
 
+def segment_checks(rec, rng, quick):
+    """representation-only options on infinite chains: extracting a segment / enlarging the unit cell do not change the operator:
+    the segment MPO of n sites equals the dense operator of the finite open chain of n sites with the same (uniform) couplings."""
+    from tenpy.models.lattice import Chain
+    fams = [x for x in mpsgen.site_families() if not getattr(x[1], 'takes_L', False)]
+    for fname, fam in fams:
+        for k in range(2 if quick else 10):
+            site = fam()
+            n = 4
+            Luc = int(rng.choice([1, 2]))
+            spec = [it for it in random_spec(rng, site, n, 'open') if it[0] in ('onsite', 'coupling')]
+            spec = [('onsite', np.array([float(np.asarray(it[1]).ravel()[0])]), it[2]) if it[0] == 'onsite' else
+                    (it[0], it[1], it[2], it[3], int(np.sign(it[4])) * min(abs(it[4]), 2), it[5]) for it in spec]
+            if not spec:
+                continue
+            for epc in (False, True):
+                inp = {'sites': fname, 'unit_cell': Luc, 'segment_sites': n, 'explicit_plus_hc': epc,
+                       'spec': [tuple(x.tolist() if isinstance(x, np.ndarray) else x for x in item) for item in spec]}
+                rec.begin(f'C10 segment {inp}')
+                lat_inf = Chain(Luc, site, bc='periodic', bc_MPS='infinite')
+                lat_fin = Chain(n, site, bc='open', bc_MPS='finite')
+                ok, M = rec.guarded('segment:build-model:exception', lambda: build_model(lat_inf, spec, epc), inp)
+                if not ok:
+                    continue
+                sites = lat_fin.mps_sites()
+                Hs = spec_dense(sites, spec, lat_fin)
+                scale = 1 + np.abs(Hs).max()
+                rec.case(('segment', fname, k, epc), True)
+                for variant in ('extract_segment', 'enlarge+extract_segment'):
+                    def seg():
+                        H = M.H_MPO.copy()
+                        if variant.startswith('enlarge'):
+                            H.enlarge_mps_unit_cell(2)
+                        return mpo_dense(H.extract_segment(0, n - 1), sites)
+                    ok, Hd = rec.guarded(f'MPO.{variant}:exception', seg, inp)
+                    if ok:
+                        rec.check(Hd.shape == Hs.shape and np.allclose(Hd, Hs, atol=1e-9 * scale), f'MPO.{variant}:dense',
+                                  f'max dev {np.abs(Hd - Hs).max() if Hd.shape == Hs.shape else "shape"}; hermitian: {np.allclose(Hd, Hd.conj().T)}', inp)
+
+
 def run(rec):
     warnings.simplefilter('ignore')
     from tenpy.models.lattice import Chain
@@ -280,3 +320,4 @@ def run(rec):
                             pg = np.array([g.leg.map_incoming_flat([a, b]) for a in range(d0) for b in range(d1)])
                             idx = (idx[:, None] * (d0 * d1) + pg[None, :]).reshape(-1)
                         rec.check(H5.shape == Hs.shape and np.allclose(H5[np.ix_(idx, idx)], Hs, atol=tol * scale), 'MPO.group_sites:dense', '', inp)
+    segment_checks(rec, rng, quick)
